@@ -50,6 +50,13 @@ PROPS.update({
               "the table-domain invariants the hash relies on are deductive obligations of C01-C04",
               "Equality direction over 15 history variants per content (orders, detours through removed hyperedges and nodes), difference direction over every single edit, for all "
               "four container types on an enumerated small scope plus random contents. SHA-256 collision resistance is assumed.", "DESIGN.md §7 C07"),
+    "C08": dict(level="exploration",
+                technique="contract-based deductive verification (AST->VC, z3) of degree and of every connectivity function of utils/cc.py against an assumed contract of _bfs + bounded run-time contract checking against union-find",
+                text=("degree/degree_sequence are proved equal to the cardinality of the set of (filtered) hyperedges containing the node; connected_components is proved to return "
+                      "each reachability class exactly once (loop invariant), and the six wrappers plus is_isolated/isolated_nodes are proved consistent with that partition under the "
+                      "SAME filter. The breadth-first search itself is outside the verified subset: its contract (returns the class of its start node; classes partition the nodes) is "
+                      "assumed in the proofs and checked at run time in the bounded tier, so the property as a whole is claimed as exploration."),
+                design_ref="DESIGN.md §7 C08", assumptions=["_bfs returns the reachability class of its start node (axioms comp_refl, comp_nodes, comp_class); checked in the bounded tier"]),
     "C09": _b("bounded run-time contract checking of every matrix/tensor function entry by entry against the definition under the returned mapping",
               "scipy.sparse / LabelEncoder code is outside the deductive engine; all hypergraphs on <= 4 nodes (six label/weight variants), all temporal hypergraphs with <= 3 timed "
               "hyperedges, seeded random larger ones, every order present or absent, keep_isolated_nodes both ways.", "DESIGN.md §7 C09"),
@@ -62,12 +69,29 @@ PROPS.update({
                       "documented node set with original node metadata, same weightedness, source unmodified) discharged for all inputs through loop invariants over the "
                       "contracted add_edge/add_nodes/set_*_metadata; get_edges(subhypergraph=True), the largest component and copy-independence are covered by the bounded tier."),
                 design_ref="DESIGN.md §7 C05", assumptions=["copy.deepcopy: equal value, no sharing (assumed library contract; independence checked in the bounded tier)"]),
+    "C12": dict(level="exploration",
+                technique="contract-based deductive verification (AST->VC, z3) of in/out degree and their sequences + bounded run-time contract checking of signature and reciprocities",
+                text=("in_degree/out_degree(_sequence) are proved equal to the cardinality of the set of (filtered) hyperedges in which the node is a source / target, from the verified "
+                      "get_source_edges/get_target_edges contracts. The signature vector (numpy) and the three reciprocities are checked against literal definitions on all directed "
+                      "hypergraphs of a stated small scope."), design_ref="DESIGN.md §7 C12", assumptions=[]),
+    "C13": dict(level="exploration",
+                technique="contract-based deductive verification (AST->VC, z3) of the pairwise-reshuffle kernel for every outcome of the random draws + bounded run-time contract checking of the models over seeds",
+                text=("The kernel __pairwise_reshuffle is proved, for all inputs and ALL outcomes of np.random.rand(), to return two duplicate-free node lists of the original sizes whose "
+                      "joint node multiset equals that of the inputs (so one step preserves both sizes and every degree). The chain around it (numpy index draws, nested closure mutating "
+                      "the enclosing list, de-duplication) and the directed model are covered by the bounded tier over many seeds."),
+                design_ref="DESIGN.md §7 C13", assumptions=["np.random.rand() returns a real in [0,1) (havoc)"]),
     "C14": _b("bounded run-time contract checking of the random generators over a parameter grid and many seeds",
               "numpy/random based generators are outside the deductive engine; structural contracts and same-seed reproducibility are evaluated for every parameter "
               "combination of a stated grid and seeds 0..19 (quick) / 0..199 (thorough).", "DESIGN.md §7 C14"),
     "C18": _b("bounded run-time contract checking of the random-walk operators (exact rationals as oracle) and of the contagion (exact synchronous reference for rates in {0,1})",
               "Floating point / numpy code: bounded exploration over all connected hypergraphs on <= 5 nodes and all initial conditions, horizons and rate triples of a stated grid.",
               "DESIGN.md §7 C18"),
+    "C19": dict(level="exploration",
+                technique="contract-based deductive verification (AST->VC, z3) of filter_hypergraph on Hypergraph over the verified remove_node/remove_edge + bounded run-time contract checking incl. get_svh",
+                text=("filter_hypergraph (keep_edges=False) on a Hypergraph is proved to leave exactly the nodes and hyperedges the statement names and to change nothing else about the "
+                      "survivors, with the criteria matcher as an uninterpreted predicate. The matcher itself, keep_edges=True, the temporal/multiplex call shapes and get_svh "
+                      "(pandas/scipy) are covered by the bounded tier."), design_ref="DESIGN.md §7 C19",
+                assumptions=["matches_criteria is a pure total function of (metadata, criteria); its definition is checked in the bounded tier"]),
     "C20": _b("bounded run-time contract checking of the centralities against networkx on independently built projections, expm, and eigen-equation residuals",
               "Floating point and networkx delegation: bounded exploration only. CEC/HEC are judged only where an independent long-run iteration converges.", "DESIGN.md §7 C20"),
 })
